@@ -17,7 +17,7 @@ sys.path.insert(0, os.path.dirname(_HERE))
 import py2v  # noqa: E402
 
 HEADER = ("From Verif Require Import Py PyExt PyValid.\n\n"
-          "From Coq Require Import ZArith List.\nImport ListNotations.\nOpen Scope Z_scope.\n")
+          "From Coq Require Import ZArith List String.\nImport ListNotations.\nOpen Scope Z_scope.\n")
 
 
 class SiteError(Exception):
@@ -81,6 +81,110 @@ def synthesize(src_text, spec):
     raise SiteError(f"unknown locator {loc!r}")
 
 
+class _Prog:
+    """call skeleton of a function as a Coq term of type Lib/PyValid.v:prog"""
+
+    def __init__(self, tables, spec):
+        self.V, self.K, self.N = tables
+        self.neutral_text = set(spec.get("neutral_text") or [])
+        self.used_text = set()
+
+    @staticmethod
+    def callee(c):
+        f = c.func
+        if isinstance(f, ast.Name):
+            return f.id
+        if isinstance(f, ast.Attribute):
+            return f.attr
+        raise SiteError(f"call through an expression: {ast.unparse(c)}")
+
+    def events(self, e):
+        """events of an expression, arguments before the call (post-order)"""
+        out = []
+        if e is None:
+            return out
+        for ch in ast.iter_child_nodes(e):
+            out += self.events(ch)
+        if isinstance(e, ast.Call):
+            n = self.callee(e)
+            txt = ast.unparse(e)
+            if txt in self.neutral_text:
+                self.used_text.add(txt)
+            elif n in self.V:
+                out.append(f'(PVal "{n}"%string)')
+            elif n in self.K:
+                out.append(f'(PKer "{n}"%string)')
+            elif n not in self.N:
+                raise SiteError(f"unclassified call `{n}` in `{txt[:60]}`")
+        return out
+
+    @staticmethod
+    def seq(items):
+        items = [x for x in items if x != "PSkip"]
+        if not items:
+            return "PSkip"
+        t = items[-1]
+        for x in reversed(items[:-1]):
+            t = f"(PSeq {x} {t})"
+        return t
+
+    def block(self, stmts):
+        return self.seq([self.stmt(s) for s in stmts])
+
+    def stmt(self, s):
+        if isinstance(s, (ast.Import, ast.ImportFrom, ast.Pass, ast.Global, ast.Nonlocal)):
+            return "PSkip"
+        if isinstance(s, ast.Expr) and isinstance(s.value, ast.Constant):
+            return "PSkip"
+        if isinstance(s, ast.Raise):
+            return "PRaise"                      # the exception constructor's arguments are message formatting
+        if isinstance(s, ast.Return):
+            return self.seq(self.events(s.value) + ["PReturn"])
+        if isinstance(s, (ast.Expr, ast.Assign, ast.AugAssign, ast.AnnAssign)):
+            return self.seq(self.events(s))
+        if isinstance(s, ast.Assert):
+            return self.seq(self.events(s.test) + ["(PIf PSkip PRaise)"])
+        if isinstance(s, ast.If):
+            a, b = self.block(s.body), self.block(s.orelse)
+            return self.seq(self.events(s.test) + ([f"(PIf {a} {b})"] if (a, b) != ("PSkip", "PSkip") else []))
+        if isinstance(s, (ast.For, ast.While)):
+            if s.orelse:
+                raise SiteError("loop with an else clause")
+            head = self.events(s.iter if isinstance(s, ast.For) else s.test)
+            body = self.block(s.body)
+            jumps = any(isinstance(n, (ast.Break, ast.Continue)) for n in ast.walk(s))
+            if jumps:
+                if body != "PSkip":
+                    raise SiteError("loop with break/continue around validator / kernel calls")
+                return self.seq(head)
+            if isinstance(s, ast.While):
+                body = self.seq([body] + head)
+            return self.seq(head + ([f"(PLoop {body})"] if body != "PSkip" else []))
+        if isinstance(s, ast.Try):
+            parts = [self.block(s.body), self.block(s.orelse), self.block(s.finalbody)] + [self.block(h.body) for h in s.handlers]
+            if any(x != "PSkip" for x in parts):
+                raise SiteError("try block around validator / kernel calls")
+            return "PSkip"
+        if isinstance(s, (ast.Break, ast.Continue)):
+            return "PSkip"
+        if isinstance(s, (ast.FunctionDef, ast.ClassDef)):
+            raise SiteError("nested definition")
+        raise SiteError(f"statement `{type(s).__name__}`")
+
+
+def extract_prog(src_text, spec, tables):
+    tree = ast.parse(src_text)
+    fn = py2v.find_function(tree, spec["func"])
+    pr = _Prog(tables, spec)
+    term = pr.block(fn.body)
+    missing = set(spec.get("neutral_text") or []) - pr.used_text
+    if missing:
+        raise SiteError(f"neutral_text no longer present: {sorted(missing)}")
+    h = hashlib.sha256(term.encode()).hexdigest()[:16]
+    return (f"(* call skeleton {spec['name']} of {spec['file']}:{spec['func']} skelhash={h} *)\n"
+            f"Definition {spec['name']} : prog :=\n{term}.\n"), h
+
+
 def generate(repo):
     sp = importlib.util.spec_from_file_location(
         "frags_validators", os.path.join(os.path.dirname(_HERE), "frags", "validators.py"))
@@ -107,6 +211,21 @@ def generate(repo):
         except (py2v.Unsupported, SiteError, OSError, SyntaxError) as ex:
             out.append(f"(* site fragment {spec['name']}: TRANSLATION FAILED: {ex} *)\n")
             report[spec["name"]] = {"status": "failed", "error": str(ex)}
+    names = []
+    for spec in getattr(m, "PROGS", []):
+        try:
+            with open(os.path.join(repo, spec["file"])) as f:
+                text = f.read()
+            coq, h = extract_prog(text, spec, (m.VALIDATOR_CALLS, m.KERNEL_CALLS, m.NEUTRAL_CALLS))
+            out.append(coq)
+            names.append(spec["name"])
+            report[spec["name"]] = {"status": "ok", "hash": h}
+        except (py2v.Unsupported, SiteError, OSError, SyntaxError) as ex:
+            out.append(f"(* call skeleton {spec['name']}: EXTRACTION FAILED: {ex} *)\n")
+            report[spec["name"]] = {"status": "failed", "error": str(ex)}
+    if len(names) == len(getattr(m, "PROGS", [])):
+        out.append("Definition site_programs : list (String.string * prog) :=\n  [" +
+                   ";\n   ".join(f'("{n}"%string, {n})' for n in names) + "].\n")
     return {"S_validators.v": "\n".join(out)}, report
 
 
